@@ -149,6 +149,25 @@ def observe(wn):
     return out
 
 
+def without_sense_frames(obs):
+    return {spec: dict(o, senses=[x[:5] + x[6:] for x in o['senses']]) for spec, o in obs.items()}
+
+
+def core_1_0(obs):
+    """The part of observe() that every LMF version can express."""
+    out = {}
+    for spec, o in obs.items():
+        lx = o['lexicon']
+        out[spec] = {
+            'lexicon': lx[:8] + (lx[9],),                       # without the logo
+            'words': [(wid, pos, [(f, script, tags) for f, _fid, script, _prons, tags in forms], meta)
+                      for wid, pos, forms, meta in o['words']],
+            'senses': o['senses'],
+            'synsets': [x[:7] + x[8:] for x in o['synsets']],   # without the lexfile
+        }
+    return out
+
+
 def _job(args):
     src_version, exp_version = args
     import wn
@@ -192,10 +211,18 @@ def _job(args):
                 wn.add(exp, progress_handler=None)
                 obs2 = observe(wn)
                 if src_version != '1.0' and exp_version == '1.0':
-                    pass    # information the export version cannot express is legitimately gone
+                    # what WN-LMF 1.0 cannot express is legitimately gone (pronunciations, form ids, lexfile, logo,
+                    # requires, ids of syntactic behaviours); everything else must come back
+                    c1, c2 = core_1_0(obs1), core_1_0(obs2)
+                    if c1 != c2:
+                        problems.append('database after re-adding the 1.0 export differs in what 1.0 can express: '
+                                        + '; '.join(diff(c2, c1)))
                 elif obs1 != obs2:
                     dd = diff(obs2, obs1)
-                    problems.append('database after re-adding the export differs: ' + '; '.join(dd))
+                    # known finding K17 explains a difference only if it is confined to the frames of the senses
+                    only_frames = without_sense_frames(obs1) == without_sense_frames(obs2)
+                    problems.append(('K17-only: ' if only_frames else '') +
+                                    'database after re-adding the export differs: ' + '; '.join(dd))
             except Exception as exc:   # noqa: BLE001
                 import traceback
                 problems.append(f'{type(exc).__name__}: {exc} ' + traceback.format_exc()[-600:])
